@@ -282,3 +282,16 @@ reg("C12", "exploration",
     require={"any": {"writer_reader_combinations_equal": 200, "none_outputs_byte_identical": 50, "async_outputs_validated": 200,
                      "full_opens_equal": 300, "partial_opens_equal": 300, "entry_maps_equal": 300, "directories_equal": 200,
                      "write_directories_equal": 50, "headers_equal": 1000}})
+
+reg("C13", "exploration",
+    "cases = (input, schedule): EVERY composition of n bytes (n <= 16 quick / 20 thorough, 2^(n-1) schedules each) for None-encoded "
+    "directories on read and on write, sync and async (with Pending bit patterns); codec directories under every fixed chunk size, "
+    "every two-part split and random compositions; headers under every fixed chunk 1..127 and every two-part split; whole archives "
+    "(incl. leaf-spilling, 4 codecs) under fixed chunks {1,2,3,7,64,4096} and random schedules x {sync, async + Pending "
+    "(alternate/random/never)} x {read, write}; every Pending pattern over the first 12 polls of an async open+dump and write. "
+    "Transfers are >= 1 byte, seeks are not fragmented, Interrupted is not injected. Distinct by enumeration (compositions, patterns) "
+    "or fingerprint; all non-trivial. Oracle: the unfragmented twin in the same process (values for readers, bytes for writers).",
+    require={"any": {"compositions_executed": 30000, "dir_reads_equal": 30000, "dir_writes_equal": 30000, "codec_directory_schedules": 1000,
+                     "header_schedules_equal": 900, "archive_reads_equal": 100, "archive_reads_equal_async": 100,
+                     "archive_writes_equal": 100, "archive_writes_equal_async": 100, "archives_with_leaves": 4,
+                     "pending_patterns_equal": 4096, "short_transfers": 100000, "pending_answers": 10000}})
